@@ -10,6 +10,7 @@
 import PonyVerif.Lemmas.SessStoreOps
 import PonyVerif.Lemmas.SetCount
 import PonyVerif.Lemmas.KeyLookup
+import PonyVerif.Model.QueryCache
 namespace PonyVerif.Props.C10
 open PonyVerif.Model.SessStore
 
@@ -411,5 +412,79 @@ example : (run (World.init [7, 8] (fun i => if i = 7 then some (some [1]) else i
     = [.found 7, .ok, .ok, .found 9, .found 7, .notFound, .found 8, .ok, .notFound] := by decide
 example : (run (World.init [7, 8] (fun i => if i = 7 then some (some [1]) else if i = 8 then some (some [5]) else none))
     [.loadPk 7, .setKey 7 (some [5]), .getBy [5], .flush]).2 = [.found 7, .ok, .found 7, .error .uniqueViolation] := by decide
+
+end PonyVerif.Props.C10
+
+/-! ## Part 4: the query-result cache across flushes (Model/QueryCache.lean over the GENERATED event order of SessionCache.flush) -/
+
+namespace PonyVerif.Props.C10
+open PonyVerif.Model.QueryCache PonyVerif.Gen.FlushQueryCache
+
+private theorem query_fresh (s : St) (h : Fresh s) : Fresh (query s).1 ∧ (query s).2 = s.db ∧ (query s).1.db = s.db := by
+  unfold query
+  cases hq : s.qc with
+  | none => simp [Fresh]
+  | some v => rcases h with h | h <;> simp_all [Fresh]
+
+/-- one round of the flush, with the events in the order they have in the source NOW (generated), leaves no stale entry, whether
+    the before_* hooks and the after_* hooks run the query or not - the entry a before-hook's query stored is dropped before the
+    rows are written -/
+theorem C10_flush_round_keeps_cache_fresh (s : St) (q : Bool × Bool) (h : Fresh s) : Fresh (round flushEvents s q) := by
+  obtain ⟨qb, qa⟩ := q
+  have h1 := query_fresh s h
+  cases qb <;> cases qa <;> simp only [round, flushEvents, List.foldl, ev, if_true, if_false, Bool.false_eq_true] <;>
+    first
+      | (simp [Fresh]; done)
+      | (apply (query_fresh _ _).1; simp [Fresh])
+
+private theorem rounds_fresh (rs : List (Bool × Bool)) (s : St) (h : Fresh s) : Fresh (rs.foldl (round flushEvents) s) := by
+  induction rs generalizing s with
+  | nil => exact h
+  | cons q rs ih => exact ih _ (C10_flush_round_keeps_cache_fresh s q h)
+
+private theorem flush_fresh (rs : List (Bool × Bool)) (s : St) (h : Fresh s) : Fresh (flush flushEvents rs s) := by
+  unfold flush
+  by_cases hp : s.pending = true
+  · simp only [hp, Bool.not_true, Bool.false_eq_true, if_false]
+    have := rounds_fresh rs s h
+    unfold Fresh at this ⊢; exact this
+  · simp [hp, h]
+
+/-- `C10_query_cache`: for ALL histories of modifications, explicit flushes and queries (any number of flush rounds, hooks that
+    run the same query or not) every answer of the application's query is the result for the database as it is at that moment,
+    i.e. after the flush that the query itself triggered: never an entry stored before rows were written. -/
+theorem C10_query_cache_all_histories (ops : List Op) (s : St) (h : Fresh s) :
+    ∀ a ∈ run flushEvents s ops, a.1 = a.2 := by
+  induction ops generalizing s with
+  | nil => intro a ha; cases ha
+  | cons op ops ih =>
+    cases op with
+    | modify =>
+      simp only [run, step]
+      exact ih _ (by unfold Fresh at h ⊢; exact h)
+    | flush rs =>
+      simp only [run, step]
+      exact ih _ (flush_fresh _ s h)
+    | read rs =>
+      simp only [run, step]
+      have hf := flush_fresh ((true, false) :: rs) s h
+      obtain ⟨q1, q2, _⟩ := query_fresh _ hf
+      intro a ha
+      rcases List.mem_cons.mp ha with rfl | ha
+      · exact q2
+      · exact ih _ q1 a ha
+
+/-- the order matters: with the cache emptied BEFORE the before_* hooks (the order of the seeded change c10-3) a hook's query
+    stores the old result, the rows are written, and the application's next query gets the old result -/
+theorem C10_query_cache_clear_before_hooks_is_stale :
+    ∃ a ∈ run [.clearQueryResults, .hooks, .write, .write, .write, .afterHooks] ⟨0, none, false⟩ [.modify, .read []], a.1 ≠ a.2 := by
+  refine ⟨(0, 3), ?_, by decide⟩
+  decide
+
+/-- nothing that touches the query-result cache or writes rows sits outside the round loop of `SessionCache.flush` -/
+theorem C10_bridge_flush_events_inside_loop : outsideLoop = [] := rfl
+
+/-- non-trivial instance on the generated order: create, read (the hook's query runs inside the implicit flush), read again -/
+example : run flushEvents ⟨0, none, false⟩ [.modify, .read [], .read [], .modify, .flush [(true, true)], .read []] = [(3, 3), (3, 3), (9, 9)] := by decide
 
 end PonyVerif.Props.C10
